@@ -653,3 +653,47 @@ Qed.
 
 Lemma tp_normal p l : traversal_path p = Ok l -> Forall normal_seg l.
 Proof. unfold traversal_path. destruct (is_ascii p); [apply tpi_normal|discriminate]. Qed.
+
+(* ------------------------------------------------------------ Router *)
+Lemma facts_router_ok :
+  ret_keys = [k_context; k_view_name; k_subpath; k_traversed; k_virtual_root; k_virtual_root_path; k_root] /\
+  router_root_key = k_root /\ router_updates_attrs = true.
+Proof. vm_compute. repeat split; reflexivity. Qed.
+
+(* request.__dict__ restricted to what the traversal part of handle_request writes *)
+Definition dict_attrs (d : tdict) : attrs :=
+  [(k_root, ARes (t_root d)); (k_context, ARes (t_context d)); (k_view_name, AStr (t_view_name d));
+   (k_subpath, ASeq (t_subpath d)); (k_traversed, ASeq (t_traversed d));
+   (k_virtual_root, ARes (t_virtual_root d)); (k_virtual_root_path, ASeq (t_virtual_root_path d))].
+
+Lemma router_traversal_with_eq T root q :
+  router_traversal_with T root q = rbind (T root q) (fun d => Ok (dict_attrs d)).
+Proof.
+  unfold router_traversal_with, tdict_items.
+  destruct facts_router_ok as (-> & -> & ->).
+  destruct (T root q) as [d| |]; reflexivity.
+Qed.
+
+(* the attributes a subscriber of ContextFound (or a view) reads are exactly the
+   fields of the traverser's dictionary; nothing else is written, and a failing
+   traversal fails the request the same way *)
+Theorem router_copies_dict root q :
+  router_traversal root q = rbind (traverser_call root q) (fun d => Ok (dict_attrs d)) /\
+  forall d, traverser_call root q = Ok d ->
+    exists a, router_traversal root q = Ok a /\
+      attrs_get k_context a = Some (ARes (t_context d)) /\
+      attrs_get k_view_name a = Some (AStr (t_view_name d)) /\
+      attrs_get k_subpath a = Some (ASeq (t_subpath d)) /\
+      attrs_get k_traversed a = Some (ASeq (t_traversed d)) /\
+      attrs_get k_virtual_root a = Some (ARes (t_virtual_root d)) /\
+      attrs_get k_virtual_root_path a = Some (ASeq (t_virtual_root_path d)) /\
+      attrs_get k_root a = Some (ARes (fst root)).
+Proof.
+  split; [apply router_traversal_with_eq|].
+  intros d Hd. exists (dict_attrs d). unfold router_traversal. rewrite router_traversal_with_eq, Hd.
+  split; [reflexivity|].
+  assert (Hr : t_root d = fst root).
+  { destruct (traverser_resolves root q d Hd) as (? & ? & ? & ? & ? & ? & _ & _ & _ & _ & _ & _ & _ & _ & H & _).
+    exact H. }
+  rewrite <- Hr. repeat split; reflexivity.
+Qed.
